@@ -218,7 +218,7 @@ var collect func(error)
 type prep struct {
 	versionID string
 	uploadID  string
-	parts    []s3c.Part
+	parts     []s3c.Part
 }
 
 // setup brings the key into the prior state and prepares what the operation needs.
@@ -522,7 +522,8 @@ func execA(c caseA, each func(crashRun)) (n int, err error) {
 			isNew = true
 		default:
 			class := ""
-			if c.Sidecar && oldS.Present && v.Get.Status == 200 && bytes.Equal(v.Get.Body, bodies[oldS.W]) {
+			// (only operations that write attributes have that window: an unversioned delete removes the file first)
+			if c.Sidecar && oldS.Present && v.Get.Status == 200 && bytes.Equal(v.Get.Body, bodies[oldS.W]) && !(c.Op == "delete" && !c.Versioned) {
 				class = " [sidecar metadata store: previous data with rewritten or removed metadata]"
 			}
 			return fmt.Errorf("%s: after restart the key is neither in its previous state (%s: %s) nor in the new state (%s: %s)%s", where, oldS, whyOld, newS, whyNew, class)
